@@ -219,6 +219,15 @@ def run_job(job: dict, base: Path, idx: int) -> dict:
                 if call["op"] == "parse":
                     results.append(None)
             rec["log"] = [list(x) for x in getattr(frw, "_verif_log", [])[n0:]]
+            if job.get("normalized"):
+                # digests that do not depend on where the sandbox is: the sandbox root is replaced in the bytes
+                files = {}
+                for _, pth, _ in rec["log"]:
+                    try:
+                        files[pth.replace(R, "{ROOT}")] = sha(open(pth, "rb").read().replace(R.encode(), b"{ROOT}"))
+                    except OSError:
+                        files[pth.replace(R, "{ROOT}")] = "?"
+                rec["files"] = files
             obs["calls"].append(rec)
         obs["parsed_idl"] = [str(x) for x in frw.processed_files.parsed.idl]
         obs["parsed_ext"] = [str(x) for x in frw.processed_files.parsed.external_types]
